@@ -159,6 +159,11 @@ Definition ippo_rows_old (nA E T : nat) (g l : Q)
   let fval := flat_ippo_old Vm in
   combine6 (flat_obs obs) (flat_obs act) (flat_ippo_old (vectorize T lp)) fadv (vec_add fadv fval) fval.
 
+(* get_experiences_samples(minibatch_idxs, *experiences): every tensor is indexed with the same index array *)
+Definition gather {A : Type} (d : A) (idx : list nat) (l : list A) : list A := map (fun i => nth i l d) idx.
+Definition minibatch (idx : list nat) (a b c : list Z) (d e f : list Q) : list row6 :=
+  combine6 (gather 0%Z idx a) (gather 0%Z idx b) (gather 0%Z idx c) (gather 0 idx d) (gather 0 idx e) (gather 0 idx f).
+
 (* ------------------------------------------------------------------------------------------ *)
 (* 4. how the training loops record done flags                                                 *)
 (* ------------------------------------------------------------------------------------------ *)
